@@ -91,6 +91,9 @@ const (
 
 // scalarWT returns the wire type of the element once pointers are removed.
 func RefWireType(t *TSpec, opt string, cfg Cfg) int {
+	if cl := refCustom(t, opt); cl != nil {
+		return cl.WT
+	}
 	u := t.Under()
 	switch u.Kind {
 	case KBool, KInt, KInt8, KInt16, KInt32, KInt64, KUint, KUint8, KUint16, KUint32, KUint64, KNullInt, KNullBool:
@@ -143,9 +146,30 @@ func IsProtoSlice(t *TSpec, opt string, cfg Cfg) bool {
 	return u.Kind == KSlice && RefSliceForm(u, opt, cfg) == formProto
 }
 
+// CustomLeaf overrides how one type is encoded (C17: codecs registered on an
+// instance).
+type CustomLeaf struct {
+	WT   int
+	Body func(v Val) []byte
+}
+
+// RefCustom, when non-nil, is consulted for every type before the built-in
+// rules. Properties run sequentially, so a package variable is enough.
+var RefCustom func(t *TSpec, opt string) *CustomLeaf
+
+func refCustom(t *TSpec, opt string) *CustomLeaf {
+	if RefCustom == nil {
+		return nil
+	}
+	return RefCustom(t, opt)
+}
+
 // RefBody is the untagged encoding of v (what Marshal emits at top level and
 // what sits behind a length prefix).
 func RefBody(b []byte, t *TSpec, opt string, v Val, cfg Cfg) []byte {
+	if cl := refCustom(t, opt); cl != nil {
+		return append(b, cl.Body(v)...)
+	}
 	u := t.Under()
 	switch u.Kind {
 	case KBool:
